@@ -153,10 +153,15 @@ type c14Msg struct {
 }
 
 type c14Result struct {
+	// PatternL18: the interleaving contains the racing pair of known finding L18 (a Send's critical section
+	// inside a receive call's check-to-store window on the same topic, or a receive call that begins a message
+	// on a topic while a Send on it is between its unlock and its return).
+	PatternL18  bool
 	Fail        *vh.Failure
 	Branching   []int
 	Overlap     bool
 	Interleave  string
+	Full        string
 	Steps       int
 	Excluded    bool
 }
@@ -254,7 +259,7 @@ func c14Execute(c c14Case, choices []int) *c14Result {
 	}
 
 	isRecv := func(th *coThread) bool { return isRecvName(th.name) }
-	var trace []byte
+	var trace, full []byte
 	for step := 0; ; step++ {
 		var runnable []*coThread
 		for _, th := range threads {
@@ -311,6 +316,22 @@ func c14Execute(c c14Case, choices []int) *c14Result {
 		}
 		th := runnable[k]
 		before := th.point
+		if !isRecv(th) && before == "Send:before-lock" && inWindow[thTopic[th]()] > 0 {
+			res.PatternL18 = true
+		}
+		if isRecv(th) && (before == "start" || before == "storeOrForward:after-add" || before == "handler") {
+			if nt := nextTopic[th](); nt >= 0 {
+				for _, o := range threads {
+					if !isRecv(o) && !o.done && thTopic[o]() == nt {
+						switch o.point {
+						case "start", "Send:before-lock", "done":
+						default:
+							res.PatternL18 = true
+						}
+					}
+				}
+			}
+		}
 		s.step(th)
 		res.Steps++
 		// window bookkeeping (for the statistics and the generator switch)
@@ -335,11 +356,13 @@ func c14Execute(c c14Case, choices []int) *c14Result {
 				res.Overlap = true
 			}
 		}
-		if len(trace) < 400 {
+		full = append(full, []byte(fmt.Sprintf("%s@%s ", th.name, th.point))...)
+		if len(trace) < 600 {
 			trace = append(trace, []byte(fmt.Sprintf("%s@%s ", th.name, th.point))...)
 		}
 	}
 	res.Interleave = string(trace)
+	res.Full = fmt.Sprintf("%+v|%+v|%s", c.Recv, c.Send, full)
 
 	// oracle: without any further Send
 	h.mu.Lock()
@@ -359,7 +382,7 @@ func c14Execute(c c14Case, choices []int) *c14Result {
 			return res
 		}
 		if n > 1 {
-			res.Fail = vh.Failf("C14/dup", "message %+v was handed to the dispatcher %d times; interleaving: %s", m, n, res.Interleave)
+			res.Fail = vh.Failf("C14/dup/"+c14Pattern(res), "message %+v was handed to the dispatcher %d times; interleaving: %s", m, n, res.Interleave)
 			return res
 		}
 	}
@@ -374,7 +397,7 @@ func c14Execute(c c14Case, choices []int) *c14Result {
 	for _, m := range log {
 		k := [2]int{m.Topic, m.Sender}
 		if prev, ok := last[k]; ok && m.Seq < prev {
-			res.Fail = vh.Failf("C14/reordered", "messages of sender %d on topic %d were handed over out of their arrival order (seq %d after %d); interleaving: %s", m.Sender, m.Topic, m.Seq, prev, res.Interleave)
+			res.Fail = vh.Failf("C14/reordered/"+c14Pattern(res), "messages of sender %d on topic %d were handed over out of their arrival order (seq %d after %d); interleaving: %s", m.Sender, m.Topic, m.Seq, prev, res.Interleave)
 			return res
 		}
 		last[k] = m.Seq
@@ -396,10 +419,17 @@ func c14Execute(c c14Case, choices []int) *c14Result {
 		if after[missing[0]] > 0 {
 			kind = "parked"
 		}
-		res.Fail = vh.Failf("C14/"+kind, "message %+v was received on a topic the local party sent on, but it was not handed to the dispatcher by the time all receive and send calls had returned (%s: a further Send %s it); interleaving: %s", missing[0], kind, map[string]string{"lost": "does not release", "parked": "releases"}[kind], res.Interleave)
+		res.Fail = vh.Failf("C14/"+kind+"/"+c14Pattern(res), "message %+v was received on a topic the local party sent on, but it was not handed to the dispatcher by the time all receive and send calls had returned (%s: a further Send %s it); interleaving: %s", missing[0], kind, map[string]string{"lost": "does not release", "parked": "releases"}[kind], res.Interleave)
 		return res
 	}
 	return res
+}
+
+func c14Pattern(r *c14Result) string {
+	if r.PatternL18 {
+		return "first-send-window"
+	}
+	return "other"
 }
 
 func isRecvName(n string) bool { return len(n) > 4 && n[:4] == "recv" }
@@ -410,7 +440,7 @@ func runC14(c c14Case) *vh.Outcome {
 	c14Mu.Lock()
 	defer c14Mu.Unlock()
 	o := &vh.Outcome{}
-	if vh.KnownOpen("C14/lost") || vh.KnownOpen("C14/parked") || vh.KnownOpen("C14/reordered") {
+	if vh.KnownOpen("C14/lost/first-send-window") || vh.KnownOpen("C14/parked/first-send-window") || vh.KnownOpen("C14/reordered/first-send-window") {
 		if !c.NoWindow && vh.EnvStr("VERIF_NO_SWITCH") == "" && !c.Probe {
 			c.NoWindow = true
 		}
@@ -433,7 +463,7 @@ func runC14(c c14Case) *vh.Outcome {
 	}
 	o.Fail = res.Fail
 	o.NonTrivial = res.Overlap
-	o.Key = res.Interleave
+	o.Key = res.Full
 	if res.Overlap {
 		o.Classes = append(o.Classes, "receive-overlaps-send-on-same-topic")
 	}
